@@ -995,10 +995,15 @@ func (ctx Ctx) sliceExpr(e *ast.SliceExpr) coq.Expr {
 		ctx.unsupported(e, "setting the max capacity in a slice expression is not supported")
 		return nil
 	}
+	sliceTy, ok := ctx.typeOf(e.X).Underlying().(*types.Slice)
+	if !ok {
+		ctx.unsupported(e, "slice expression on %v (only slices can be sliced)", ctx.typeOf(e.X))
+		return nil
+	}
 	x := ctx.expr(e.X)
 	if e.Low != nil && e.High == nil {
 		return coq.NewCallExpr(coq.GallinaIdent("SliceSkip"),
-			ctx.coqTypeOfType(e, sliceElem(ctx.typeOf(e.X))),
+			ctx.coqTypeOfType(e, sliceTy.Elem()),
 			x, ctx.expr(e.Low))
 	}
 	if e.Low == nil && e.High != nil {
@@ -1007,7 +1012,7 @@ func (ctx Ctx) sliceExpr(e *ast.SliceExpr) coq.Expr {
 	}
 	if e.Low != nil && e.High != nil {
 		return coq.NewCallExpr(coq.GallinaIdent("SliceSubslice"),
-			ctx.coqTypeOfType(e, sliceElem(ctx.typeOf(e.X))),
+			ctx.coqTypeOfType(e, sliceTy.Elem()),
 			x, ctx.expr(e.Low), ctx.expr(e.High))
 	}
 	if e.Low == nil && e.High == nil {
